@@ -79,7 +79,7 @@ def subtree(tree, rel):
 
 def snapshot(root, times=False):
     """{relative path: (type, size, sha256)} of everything under root; times=True adds the modification time of
-    regular files (a file that is rewritten or touched differs even when its bytes are the same)."""
+    regular files and their permission bits (a file that is rewritten, touched or chmod-ed differs even when its bytes are the same)."""
     snap = {}
     for dirpath, dirnames, filenames in os.walk(root):
         rel = os.path.relpath(dirpath, root)
@@ -93,7 +93,7 @@ def snapshot(root, times=False):
                 if stat.S_ISREG(st.st_mode):
                     with open(p, "rb") as fh:
                         data = fh.read()
-                    snap[rel + f] = ("file", len(data), hashlib.sha256(data).hexdigest()) + ((st.st_mtime_ns,) if times else ())
+                    snap[rel + f] = ("file", len(data), hashlib.sha256(data).hexdigest()) + ((st.st_mtime_ns, stat.S_IMODE(st.st_mode)) if times else ())
                 else:
                     snap[rel + f] = ("other", 0, "")
             except OSError:
